@@ -2,7 +2,11 @@
 
 Relations
   roundtrip   : Phenotypes/Covariates.write then read on generated float64 tables (by bit-pattern class)
-                and name multisets (collisions incl. already-suffixed forms), plain or gzip
+                and name multisets (collisions incl. already-suffixed forms), plain or gzip; besides the 1-6 x 1-5
+                tables: WIDE tables (999 / 1000 / 1001 / 1002 / ~1500 columns: numpy summarises a printed row of more
+                than 1000 elements), LONG tables (1000 / 1001 / 1025 samples), one name 11-130 (-1002) times (suffix
+                counter past 9|10, 99|100, 999|1000), rows whose text is near / far beyond numpy's default line width
+                (75), and small tables written while hostile ambient numpy print options are in force
   read        : read() of hand-made files: comment lines, missing '#IID', NA/na/text cells, blank lines,
                 ragged rows, sample filters; records, names and the number of error messages compared
   standardize : Phenotypes.standardize on well-conditioned tables incl. constant columns; agree = exact rational
@@ -21,6 +25,7 @@ import tempfile
 
 import numpy as np
 
+from . import c15_lit as CL
 from . import coqlit as L
 from .core import Relation, err_kind
 
@@ -33,12 +38,20 @@ def _bud(q, t):
 
 PROP = "C15"
 CLAIMED = True
-COQ_MODULES = ["Stats", "C15_Model", "C15_Check", "C15_Proofs", "C15_SeqModel", "C15_SeqCheck", "C15_SeqProofs"]
+COQ_MODULES = ["Stats", "StatsR", "C15_Model", "C15_Check", "C15_Proofs", "C15_SeqModel", "C15_SeqCheck", "C15_SeqProofs",
+               "C15_Std"]
 PROPERTY_MODULE = "C15_Property"
-ALLOWED_AXIOMS = []
+# Coq's Reals library (as for C09): only the theorems that relate the exact rational (deviation, variance) model of
+# standardize to the real-number standardisation of StatsR.v depend on them; every other theorem is closed
+ALLOWED_AXIOMS = [
+    "ClassicalDedekindReals.sig_not_dec",
+    "ClassicalDedekindReals.sig_forall_dec",
+    "FunctionalExtensionality.functional_extensionality_dep",
+]
 RULE = (
     "roundtrip: non-trivial = the table holds a value of a boundary bit-pattern class (subnormal, +-0, 2^k/10^k +- 1 ulp, "
-    "1e+-300, >= 2^53, 17 significant digits, mixed magnitudes in one row) or the name multiset has a collision. "
+    "1e+-300, >= 2^53, 17 significant digits, mixed magnitudes in one row), or the name multiset has a collision, or the "
+    "table has more than 1000 columns, or ambient numpy print options are set. "
     "read: non-trivial = the file has a comment line, a non-numeric cell or a sample filter. standardize: always "
     "(constant and non-constant columns). ops: non-trivial = the operation changes the table or raises. "
     "opseq: non-trivial = a look-up by id (index / subset with a request) is executed after an earlier step changed the "
@@ -51,6 +64,11 @@ TRUSTED = [
     "standardize compared with exact rational mean/variance to 1e-9 (relative to dev^2 + var) on well-conditioned columns",
     "opseq: the cells after a standardize step are taken from the observation (checked against the exact rational model "
     "of the model's own cells before the step) - the model does not compute floats",
+    "long case literals are written as generators (zrep / zseq / nrep / gnames / by_cols, harness/c15_lit.py; meaning "
+    "proved: C15_zseq_spec, C15_zrep_spec, C15_gnames_spec, C15_by_cols_spec); the compressor is lossless on any list, "
+    "is applied to the implementation's output as to the input, and re-expands every literal before use",
+    "Coq's Reals axioms (sig_not_dec, sig_forall_dec, functional_extensionality_dep) under the six theorems that relate "
+    "the exact (deviation, variance) model of standardize to the real-number standardisation; all other theorems closed",
 ]
 ASSUMPTIONS = [
     "names and sample ids contain no tab/newline/CR/double quote; tables have >= 1 sample and >= 1 column",
@@ -58,6 +76,9 @@ ASSUMPTIONS = [
     "constant); a column holding nan/inf is modelled as all-nan (agree only); NaN payloads not compared",
     "opseq: a look-up on an axis that currently holds duplicate ids is not made (the single-operation relation `ops` "
     "covers the ValueError), write+read is not made on a table without rows or columns; both are no-ops of the model too",
+    "roundtrip under ambient numpy print options: only options that Phenotypes.write pins in its array2string call "
+    "(threshold, edgeitems, linewidth, floatmode, suppress, sign) or that numpy ignores under floatmode='unique' "
+    "(precision) are set; nanstr / infstr / formatter / legacy are left at their defaults",
 ]
 
 
@@ -79,11 +100,11 @@ def chars(s):
 
 
 def names_term(l):
-    return L.lst(l, chars)
+    return CL.names_c(l)   # plain element-by-element literal below 24 names, generators (nrep / gnames) above
 
 
 def rows_term(rows):
-    return L.lst(rows, L.zl)
+    return CL.rows_c(rows)  # plain below 24 rows / cells per row, generators (zrep / zseq / by_cols) above
 
 
 def ulp_step(x, k):
@@ -150,6 +171,78 @@ def make_table(rng, maxn=6, maxm=5, finite_only=False):
     return names, samples, data, sorted(classes)
 
 
+# ---- tables straddling numpy's print thresholds ---------------------------------------------------
+# np.array2string summarises an array of more than `threshold` (default 1000) elements to `edgeitems` (3) cells on either
+# side of a literal "..." cell and wraps a line longer than `linewidth` (75) characters; Phenotypes.write prints every row
+# with it.  A table has to have > 1000 COLUMNS (resp. a row text > 75 characters) to reach either default.
+WIDE_M = (999, 1000, 1001, 1002)
+LONG_N = (1000, 1001, 1025)
+INF = float("inf")
+
+
+def _run_ok(base, ln):
+    """base .. base+ln are finite float64 bit patterns of one sign"""
+    top = base + ln
+    return top < 2**64 and (top >> 63) == (base >> 63) and ((top >> 52) & 0x7FF) < 0x7FF
+
+
+def block_cells(rng, m, style=None, finite_only=False):
+    """m cells as a few blocks - a constant cell, or a run of ADJACENT float64 (bit pattern +1: every cell needs its own
+    shortest repr) - with single cells of any class at both edges and around position 1000.  Such a row costs a few
+    hundred characters of literal (harness/c15_lit.py) instead of 20 per cell.  Returns (bits, class labels)."""
+    style = style or str(rng.choice(["const", "ulp-run", "blocks"]))
+    cuts = [0, m]
+    if style == "blocks" and m > 2:
+        cuts = sorted({0, m, *[int(x) for x in rng.integers(1, m, size=int(rng.integers(1, 5)))]})
+    row, labs = [], {"row:" + style}
+    for a, b in zip(cuts, cuts[1:]):
+        x, c = rand_float(rng)
+        while finite_only and (x != x or abs(x) == INF):
+            x, c = rand_float(rng)
+        labs.add(c)
+        base = f2b(x)
+        run = style == "ulp-run" or (style == "blocks" and rng.random() < 0.5)
+        if run and x == x and abs(x) != INF and _run_ok(base, b - a):
+            row += list(range(base, base + (b - a)))
+        else:
+            row += [base] * (b - a)
+    for pos in (0, 1, 2, m - 3, m - 2, m - 1, 998, 999, 1000, 1001):
+        if 0 <= pos < m and rng.random() < 0.3:
+            x, c = rand_float(rng)
+            while finite_only and (x != x or abs(x) == INF):
+                x, c = rand_float(rng)
+            row[pos] = f2b(x)
+            labs.add(c)
+    return row, labs
+
+
+def wide_names(rng, m):
+    """m column names: distinct, all equal (the suffix counter runs to m-1: width changes at 10, 100, 1000), equal with
+    already-suffixed forms in between, or two blocks of equal names"""
+    style = str(rng.choice(["distinct", "distinct", "all-same", "same+suffixed", "two-blocks"]))
+    if style == "distinct":
+        return [f"p{j}" for j in range(m)], style
+    base = str(rng.choice(["a", "b", "a-1", "height"]))
+    names = [base] * m
+    if style == "same+suffixed":
+        for _ in range(int(rng.integers(1, 5))):
+            k = int(rng.choice([1, 9, 10, 11, 99, 100, 101, 999, 1000, m - 2, m - 1, m]))
+            names[int(rng.integers(0, m))] = f"{base}-{k}"
+    elif style == "two-blocks":
+        h = int(rng.integers(1, m))
+        names = [base] * h + ["x"] * (m - h)
+    return names, style
+
+
+# ambient numpy print options a caller may have set (np.set_printoptions) before calling write(): only options that
+# Phenotypes.write pins explicitly in its array2string call (or that numpy documents as ignored under floatmode="unique")
+def ambient_printopts(rng):
+    pool = {"threshold": [0, 1, 3, 5, 1000], "edgeitems": [0, 1, 2], "linewidth": [1, 10, 40, 75], "precision": [0, 2, 8, 17],
+            "suppress": [True, False], "floatmode": ["fixed", "maxprec", "maxprec_equal", "unique"], "sign": ["-", "+", " "]}
+    keys = [k for k in sorted(pool) if rng.random() < 0.6] or ["threshold", "edgeitems", "linewidth"]
+    return {k: (pool[k][int(rng.integers(0, len(pool[k])))]) for k in keys}
+
+
 def new_obj(cls, fname, log=None):
     from haptools.data import Covariates, Phenotypes
 
@@ -181,13 +274,107 @@ class RoundTrip(Relation):
     anchors = [("haptools/data/phenotypes.py", "Phenotypes.write"), ("haptools/data/phenotypes.py", "Phenotypes.read"),
                ("haptools/data/phenotypes.py", "Phenotypes.__iter__"), ("haptools/data/phenotypes.py", "Phenotypes._iterate")]
 
+    # ---- input classes beyond the 1-6 x 1-5 tables ------------------------------------------------------
+    def _case(self, rng, names, samples, data, classes, klass, **kw):
+        return dict({"cls": "C" if rng.random() < 0.25 else "P", "gz": bool(rng.random() < 0.25), "names": names,
+                     "samples": samples, "data": data, "classes": sorted(classes), "klass": klass}, **kw)
+
+    def _wide(self, rng, m, n=None, style=None, distinct=False):
+        """m columns around numpy's summarisation threshold (1000 elements per printed row) x 1-2 samples"""
+        n = n or int(rng.integers(1, 3))
+        names, nstyle = wide_names(rng, m) if not distinct else ([f"p{j}" for j in range(m)], "distinct")
+        rows, labs = [], {"names:" + nstyle}
+        for _ in range(n):
+            r, l = block_cells(rng, m, style)
+            rows.append(r)
+            labs |= l
+        samples = [str(x) for x in rng.choice(SAMPLE_POOL, size=n, replace=False)]
+        return self._case(rng, names, samples, rows, labs, "wide")
+
+    def _long(self, rng, n):
+        """n > 1000 samples x 1-2 columns (every row is printed on its own)"""
+        m = int(rng.integers(1, 3))
+        cols, labs = [], set()
+        for _ in range(m):
+            c, l = block_cells(rng, n)
+            cols.append(c)
+            labs |= l
+        return self._case(rng, [str(rng.choice(NAME_POOL)) for _ in range(m)], [f"s{i}" for i in range(n)],
+                          [[c[i] for c in cols] for i in range(n)], labs, "long")
+
+    def _many_dup(self, rng):
+        """one name 11 ... 130 times: the suffix counter passes 9|10 and 99|100; some columns already carry such a suffix"""
+        m = int(rng.choice([11, 12, 20, 101, 102, 130]))
+        base = str(rng.choice(["a", "b", "a-1", "p"]))
+        names = [base] * m
+        for _ in range(int(rng.integers(0, 5))):
+            k = int(rng.choice([1, 8, 9, 10, 11, 98, 99, 100, 101, m - 2, m - 1, m]))
+            names[int(rng.integers(0, m))] = str(rng.choice([f"{base}-{k}", f"{base}-{k}-1", f"{base}-0{k}"]))
+        row, labs = block_cells(rng, m, finite_only=False)
+        return self._case(rng, names, [str(rng.choice(SAMPLE_POOL))], [row], labs | {"names:many-duplicates"}, "many-dup")
+
+    def _long_row(self, rng):
+        """rows whose text is far longer than numpy's default line width (75): 6-40 cells of 17-24 characters"""
+        n, m = int(rng.integers(1, 4)), int(rng.integers(6, 41))
+        data = []
+        for _ in range(n):
+            row = []
+            for _ in range(m):
+                c = int(rng.integers(0, 4))
+                sgn = -1.0 if rng.random() < 0.5 else 1.0
+                x = (sgn * float(rng.random()) if c == 0 else
+                     sgn * float(rng.uniform(1, 10)) * 10.0 ** float(rng.choice([300, -300, 307, -307, 100, -100])) if c == 1 else
+                     sgn * b2f(int(rng.integers(1, 2**52))) if c == 2 else
+                     sgn * b2f(int(rng.integers(2**52, 0x7FF0000000000000))))
+                row.append(f2b(x))
+            data.append(row)
+        names = [f"p{j}" for j in range(m)]
+        samples = [str(x) for x in rng.choice(SAMPLE_POOL, size=n, replace=False)]
+        return self._case(rng, names, samples, data, {"17-digit", "1e+-300", "subnormal", "random-bits"}, "long-row")
+
+    def _width75(self, rng):
+        """rows of short cells whose text is about as long as numpy's default line width (60-100 characters)"""
+        n, m = int(rng.integers(1, 3)), int(rng.integers(14, 30))
+        pool = [0.5, 1.0, -1.0, 2.25, 10.0, 0.0, -0.5, 3.0, 7.5, -9.0, 12.0, 0.25]
+        k = int(rng.integers(1, 4))
+        data = [[f2b(float(rng.choice(pool[: 4 * k]))) for _ in range(m)] for _ in range(n)]
+        names = [f"p{j}" for j in range(m)]
+        samples = [str(x) for x in rng.choice(SAMPLE_POOL, size=n, replace=False)]
+        return self._case(rng, names, samples, data, {"short-decimal", "small-int"}, "row-width~75")
+
     def generate(self, rng, n, tier):
-        out = []
-        for i in range(n):
-            names, samples, data, classes = make_table(rng)
-            out.append({"cls": "C" if rng.random() < 0.25 else "P", "gz": bool(rng.random() < 0.25),
-                        "names": names, "samples": samples, "data": data, "classes": classes})
-        return out
+        # the width-boundary stream (corpus/C15/wide_1001_roundtrip.json is a further such case on every run).  It goes
+        # to the END of the list - the cases are evaluated in shards of 150, the last shard is the small remainder - but
+        # before the very last case (the evidence file quotes the first two and the last input of every relation)
+        big, out = [], []
+        if tier == "thorough":
+            for m in WIDE_M + (1003, 1280, 1500, 2001):
+                big.append(self._wide(rng, m))
+                big.append(self._wide(rng, m))
+            for nn in LONG_N + (2049,):
+                big.append(self._long(rng, nn))
+            # one row of ~100 000 characters (4096 adjacent float64 of 17 digits each)
+            big.append(self._wide(rng, 4096, 1, "ulp-run", True))
+        else:
+            big.append(self._wide(rng, int(rng.choice([1001, 1002]))))
+            big.append(self._wide(rng, int(rng.choice([999, 1000, 1003, int(rng.integers(1004, 1600))]))))
+            big.append(self._long(rng, int(rng.choice(LONG_N))))
+        n = max(n, len(big) + 1)
+        while len(out) < n - len(big):
+            r = rng.random()
+            if r < 0.012:
+                out.append(self._many_dup(rng))
+            elif r < 0.024:
+                out.append(self._long_row(rng))
+            elif r < 0.036:
+                out.append(self._width75(rng))
+            else:
+                names, samples, data, classes = make_table(rng)
+                c = self._case(rng, names, samples, data, classes, "small")
+                if rng.random() < 0.05:
+                    c["popt"] = ambient_printopts(rng)
+                out.append(c)
+        return out[:-1] + big + out[-1:]
 
     def exhaustive(self, tier):
         import itertools
@@ -209,13 +396,15 @@ class RoundTrip(Relation):
                 p = new_obj(inp["cls"], fn, quiet_logger())
                 p.names = tuple(inp["names"])
                 p.samples = tuple(inp["samples"])
-                p.data = np.array([[b2f(b) for b in row] for row in inp["data"]], dtype="float64").reshape(
-                    len(inp["data"]), len(inp["names"]))
-                p.write()
+                p.data = np.array(inp["data"], dtype="uint64").view("float64").reshape(len(inp["data"]), len(inp["names"]))
+                # ambient print options (a caller's np.set_printoptions) are in force while the file is written
+                with np.printoptions(**(inp.get("popt") or {})):
+                    p.write()
                 q = new_obj(inp["cls"], fn, quiet_logger())
                 q.read()
+                back = np.ascontiguousarray(np.asarray(q.data, dtype="float64"))
                 return {"ok": {"names": [str(x) for x in q.names], "samples": [str(x) for x in q.samples],
-                               "data": [[f2b(v) for v in row] for row in np.asarray(q.data, dtype="float64").tolist()]}}
+                               "data": [[int(v) for v in row] for row in back.view("uint64").tolist()]}}
             except Exception as e:  # noqa
                 return {"err": err_kind(e), "cls": type(e).__name__, "msg": str(e)[:200]}
         finally:
@@ -231,36 +420,76 @@ class RoundTrip(Relation):
 
     def nontrivial(self, inp, obs):
         boundary = {"subnormal", "zero", "pow2+-ulp", "pow10+-ulp", "1e+-300", "int>=2^52", "17-digit", "format-switch"}
-        return bool(boundary & set(inp.get("classes", []))) or len(set(inp["names"])) < len(inp["names"])
+        return (bool(boundary & set(inp.get("classes", []))) or len(set(inp["names"])) < len(inp["names"])
+                or len(inp["names"]) > 1000 or bool(inp.get("popt")))
 
     def classes(self, inp, obs):
-        out = list(inp.get("classes", [])) + [inp["cls"], "gz" if inp["gz"] else "plain"]
+        out = list(inp.get("classes", [])) + [inp["cls"], "gz" if inp["gz"] else "plain", "class:" + inp.get("klass", "small")]
         nm = inp["names"]
+        n, m = len(inp["samples"]), len(nm)
+        # numpy's default thresholds: a printed row of > 1000 elements, a row text of > 75 characters
+        out.append("columns>1000" if m > 1000 else "columns=1000" if m == 1000 else "columns=999" if m == 999 else "columns<999")
+        out.append("samples>1000" if n > 1000 else "samples=1000" if n == 1000 else "samples<1000")
+        if inp.get("popt"):
+            out += ["ambient-printoptions"] + [f"ambient:{k}" for k in sorted(inp["popt"])]
         if len(set(nm)) < len(nm):
             out.append("duplicate-names")
-            if any(a + "-" in b or b + "-" in a for a in nm for b in nm if a != b):
+            top = max(nm.count(x) for x in set(nm))
+            out.append("same-name>=1000x" if top >= 1000 else "same-name>=100x" if top >= 100 else "same-name>=10x" if top >= 10
+                       else "same-name<10x")
+            if m <= 200 and any(a + "-" in b or b + "-" in a for a in nm for b in nm if a != b):
                 out.append("duplicate+already-suffixed-form")
-        mags = [abs(b2f(b)) for row in inp["data"] for b in row if b2f(b) == b2f(b) and b2f(b) != 0]
-        if any(max(r) / min(r) > 1e20 for r in ([abs(b2f(b)) for b in row if b2f(b) == b2f(b) and b2f(b) != 0] for row in inp["data"]) if len(r) > 1):
-            out.append("row-mixes-magnitudes")
+        vals = [[b2f(b) for b in row] for row in inp["data"][:4]]
+        for row in vals:
+            fin = [abs(x) for x in row if x == x and x != 0 and abs(x) != INF]
+            if len(fin) > 1 and max(fin) / min(fin) > 1e20:
+                out.append("row-mixes-magnitudes")
+            # lower bound of the row's text: shortest repr of every cell + separators
+            if m <= 200:
+                w = sum(len(repr(x)) for x in row) + m
+                out.append("row-text>75" if w > 80 else "row-text~75" if w >= 60 else "row-text<75")
         if "err" in obs:
             out.append(f"err{obs['err']}")
-        return out
+        return sorted(set(out))
 
     def shrink(self, inp):
         n, m = len(inp["samples"]), len(inp["names"])
+        one = f2b(1.0)
+        if inp.get("popt"):
+            yield {k: v for k, v in inp.items() if k != "popt"}
+            for k in sorted(inp["popt"]):
+                yield dict(inp, popt={a: b for a, b in inp["popt"].items() if a != k})
         for i in range(n):
-            if n > 1:
+            if 1 < n <= 40:
                 yield dict(inp, samples=inp["samples"][:i] + inp["samples"][i + 1:], data=inp["data"][:i] + inp["data"][i + 1:])
-        for j in range(m):
-            if m > 1:
-                yield dict(inp, names=inp["names"][:j] + inp["names"][j + 1:], data=[r[:j] + r[j + 1:] for r in inp["data"]])
-        for i in range(n):
+        if n > 40:  # long tables: drop halves, quarters, ... of the rows from either end
+            k = n // 2
+            while k >= 1:
+                yield dict(inp, samples=inp["samples"][: n - k], data=inp["data"][: n - k])
+                yield dict(inp, samples=inp["samples"][k:], data=inp["data"][k:])
+                k //= 2
+        if m > 40:  # wide tables: drop halves, quarters, ... of the columns from either end; plain names and cells
+            k = m // 2
+            while k >= 1:
+                yield dict(inp, names=inp["names"][: m - k], data=[r[: m - k] for r in inp["data"]])
+                yield dict(inp, names=inp["names"][k:], data=[r[k:] for r in inp["data"]])
+                k //= 2
+            if inp["names"] != [f"p{j}" for j in range(m)]:
+                yield dict(inp, names=[f"p{j}" for j in range(m)])
+        else:
             for j in range(m):
-                if inp["data"][i][j] != f2b(1.0):
-                    dd = [list(r) for r in inp["data"]]
-                    dd[i][j] = f2b(1.0)
-                    yield dict(inp, data=dd)
+                if m > 1:
+                    yield dict(inp, names=inp["names"][:j] + inp["names"][j + 1:], data=[r[:j] + r[j + 1:] for r in inp["data"]])
+        if n * m > 200:
+            if any(b != one for r in inp["data"] for b in r):
+                yield dict(inp, data=[[one] * m for _ in range(n)])
+        else:
+            for i in range(n):
+                for j in range(m):
+                    if inp["data"][i][j] != one:
+                        dd = [list(r) for r in inp["data"]]
+                        dd[i][j] = one
+                        yield dict(inp, data=dd)
         if inp["gz"]:
             yield dict(inp, gz=False)
         if inp["cls"] == "C":
@@ -507,14 +736,46 @@ class Standardize(Relation):
             col = [float(i) for i in range(n)]
         return col, lab
 
+    def _long_column(self, rng, n, cheap=False):
+        """n > 1000 cells in 2-6 blocks of equal values (numpy reduces > 8 / > 128 elements pairwise, in blocks), or one
+        block: a constant column.  The standardised column has the same blocks, so the literal stays small.  (Exact
+        rational statistics of 1000 cells cost 5-20 CPU seconds in Coq: `cheap` = integer levels, for the quick tier.)"""
+        r = rng.random() if not cheap else float(rng.uniform(0.7, 1.0))
+        if r < 0.2:
+            v = float(rng.choice([0.1, 0.7, 1.1, 2.3, 0.3, 5.0, -3.3, 1e-3, 123.456, 1 / 3]))
+            return [v] * n, "constant"
+        levels = ([0.0, 1.0] if r < 0.4 else [0.1, 0.2, 0.3, 0.7, 1 / 3, -2.5] if r < 0.7 else
+                  [float(x) for x in rng.integers(-50, 51, size=6)])
+        k = int(rng.integers(2, 7))
+        cuts = sorted({0, n, *[int(x) for x in rng.integers(1, n, size=k - 1)]})
+        col = []
+        for a, b in zip(cuts, cuts[1:]):
+            col += [float(rng.choice(levels))] * (b - a)
+        if len(set(col)) == 1:
+            return col, "constant"
+        return col, "blocks"
+
+    def _long(self, rng, n, cheap=False):
+        m = 1 if cheap else int(rng.integers(1, 3))
+        cols, labs = zip(*[self._long_column(rng, n, cheap) for _ in range(m)])
+        if cheap and rng.random() < 0.5:   # a constant column beside it costs nothing
+            cols, labs = list(cols) + [[0.1] * n], list(labs) + ["constant"]
+            m = 2
+        return {"cls": "C" if rng.random() < 0.2 else "P", "data": [[f2b(cols[j][i]) for j in range(m)] for i in range(n)],
+                "labs": list(labs) + ["long"]}
+
     def generate(self, rng, n, tier):
+        big = [self._long(rng, int(rng.choice(LONG_N)), cheap=True)]
+        if tier == "thorough":
+            big += [self._long(rng, nn) for nn in LONG_N + (127, 128, 129, 2049)]
         out = []
-        for i in range(n):
+        n = max(n, len(big) + 1)
+        while len(out) < n - len(big):
             ns, m = int(rng.integers(1, 8)), int(rng.integers(1, 4))
             cols, labs = zip(*[self._column(rng, ns) for _ in range(m)])
             out.append({"cls": "C" if rng.random() < 0.2 else "P",
                         "data": [[f2b(cols[j][i]) for j in range(m)] for i in range(ns)], "labs": list(labs)})
-        return out
+        return out[:-1] + big + out[-1:]   # see RoundTrip.generate
 
     def run_impl(self, inp):
         import warnings
@@ -537,7 +798,8 @@ class Standardize(Relation):
         return f"(mkst {rows_term(inp['data'])} {ot})"
 
     def classes(self, inp, obs):
-        return list(inp["labs"]) + [f"n={len(inp['data'])}"]
+        n = len(inp["data"])
+        return list(inp["labs"]) + [f"n={n}" if n < 100 else "n>1000" if n > 1000 else "n=1000" if n == 1000 else "n>=100"]
 
     def shrink(self, inp):
         d = inp["data"]
@@ -545,9 +807,16 @@ class Standardize(Relation):
         for j in range(m):
             if m > 1:
                 yield dict(inp, data=[r[:j] + r[j + 1:] for r in d], labs=inp["labs"][:j] + inp["labs"][j + 1:])
-        for i in range(len(d)):
-            if len(d) > 1:
-                yield dict(inp, data=d[:i] + d[i + 1:])
+        if len(d) > 40:
+            k = len(d) // 2
+            while k >= 1:
+                yield dict(inp, data=d[: len(d) - k])
+                yield dict(inp, data=d[k:])
+                k //= 2
+        else:
+            for i in range(len(d)):
+                if len(d) > 1:
+                    yield dict(inp, data=d[:i] + d[i + 1:])
 
     def signature(self, inp, obs):
         if "ok" not in obs:
@@ -588,9 +857,48 @@ class Ops(Relation):
         req = [int(x) for x in rng.choice(pool, size=k, replace=bool(rng.random() < 0.2))] if k else []
         return req
 
+    def _big(self, rng, n, m):
+        """one operation on an n x m table with n or m > 1000 (ids 0..n-1 / 0..m-1, cells in blocks)"""
+        s, nm = list(range(n)), list(range(m))
+        flat, _ = block_cells(rng, n * m if min(n, m) == 1 else n, finite_only=False)
+        if min(n, m) == 1:
+            d = [flat[i * m:(i + 1) * m] for i in range(n)]
+        else:
+            col2, _ = block_cells(rng, n)
+            d = [[a, b] for a, b in zip(flat, col2)][:n]
+            nm, m = [0, 1], 2
+        kind = int(rng.integers(0, 3))
+        edge = sorted({0, 1, 999, 1000, 1001, n - 2, n - 1} & set(range(n)))
+        edge_n = sorted({0, 1, 999, 1000, 1001, m - 2, m - 1} & set(range(m)))
+        if kind == 0:
+            col, _ = block_cells(rng, n)
+            if rng.random() < 0.2:
+                col = col[:-1]
+            op = {"k": "append", "unset": False, "name": 5000, "col": col}
+        elif kind == 1:
+            rs = rn = None
+            if n > 1:
+                pick = [int(x) for x in rng.choice(edge, size=min(len(edge), int(rng.integers(1, 6))), replace=False)]
+                rs = pick + ([n + 7] if rng.random() < 0.5 else [])
+                if rng.random() < 0.25:
+                    rs = list(range(n - 1, -1, -1))        # everything, reversed
+            if m > 2 or rng.random() < 0.3:
+                rn = [int(x) for x in rng.choice(edge_n, size=min(len(edge_n), int(rng.integers(1, 5))), replace=False)]
+            op = {"k": "subset", "rs": rs, "rn": rn, "inplace": bool(rng.random() < 0.5)}
+        else:
+            for i in rng.choice(edge, size=min(len(edge), int(rng.integers(0, 4))), replace=False):
+                d[int(i)][int(rng.integers(0, m))] = f2b(-9.0)
+            op = {"k": "missing", "discard": bool(rng.random() < 0.7)}
+        return {"cls": "C" if rng.random() < 0.2 else "P", "samples": s, "names": nm, "data": d, "op": op, "dup": None,
+                "big": "long" if n > m else "wide"}
+
     def generate(self, rng, n, tier):
+        big = [self._big(rng, int(rng.choice(LONG_N)), 1), self._big(rng, 1, int(rng.choice(WIDE_M)))]
+        if tier == "thorough":
+            big += [self._big(rng, nn, int(rng.integers(1, 3))) for nn in LONG_N + (2049,) for _ in range(3)]
+            big += [self._big(rng, 1, mm) for mm in WIDE_M + (1500,) for _ in range(3)]
         out = []
-        for i in range(n):
+        for i in range(max(n - len(big), 1)):
             kind = int(rng.integers(0, 3))
             s, nm, d = self._table(rng, float(rng.choice([0, 0.1, 0.4, 1.0])) if kind == 2 else 0.05)
             dup = None
@@ -612,7 +920,7 @@ class Ops(Relation):
             else:
                 op = {"k": "missing", "discard": bool(rng.random() < 0.6)}
             out.append({"cls": "C" if rng.random() < 0.2 else "P", "samples": s, "names": nm, "data": d, "op": op, "dup": dup})
-        return out
+        return out[:-1] + big + out[-1:]   # see RoundTrip.generate
 
     def run_impl(self, inp):
         try:
@@ -643,14 +951,14 @@ class Ops(Relation):
 
     @staticmethod
     def _tab(t):
-        return f"(mktab {L.zl(t['samples'])} {L.zl(t['names'])} {rows_term(t['data'])})"
+        return f"(mktab {CL.zl_c(t['samples'])} {CL.zl_c(t['names'])} {rows_term(t['data'])})"
 
     def encode(self, inp, obs):
         op = inp["op"]
         if op["k"] == "append":
-            o = f"(OpAppend {L.b(op['unset'])} {L.z(op['name'])} {L.zl(op['col'])})"
+            o = f"(OpAppend {L.b(op['unset'])} {L.z(op['name'])} {CL.zl_c(op['col'])})"
         elif op["k"] == "subset":
-            o = f"(OpSubset {L.opt(op['rs'], L.zl)} {L.opt(op['rn'], L.zl)})"
+            o = f"(OpSubset {L.opt(op['rs'], CL.zl_c)} {L.opt(op['rn'], CL.zl_c)})"
         else:
             o = f"(OpMissing {L.b(op['discard'])})"
         ot = f"(Ok {self._tab(obs['ok'])})" if "ok" in obs else f"(Err {L.z(obs.get('err', obs.get('kind', 99)))})"
@@ -676,6 +984,8 @@ class Ops(Relation):
             out.append("discard" if op["discard"] else "raise")
         if op["k"] == "append" and op["unset"]:
             out.append("unset")
+        out.append("samples>1000" if len(inp["samples"]) > 1000 else "samples=1000" if len(inp["samples"]) == 1000 else "samples<1000")
+        out.append("columns>1000" if len(inp["names"]) > 1000 else "columns=1000" if len(inp["names"]) == 1000 else "columns<1000")
         if "ok" not in obs:
             out.append(f"err{obs.get('err')}")
         return out
@@ -683,12 +993,26 @@ class Ops(Relation):
     def shrink(self, inp):
         s, nm, d = inp["samples"], inp["names"], inp["data"]
         if inp["op"]["k"] != "append":
-            for i in range(len(s)):
-                if len(s) > 1:
-                    yield dict(inp, samples=s[:i] + s[i + 1:], data=d[:i] + d[i + 1:])
-        for j in range(len(nm)):
-            if len(nm) > 1:
-                yield dict(inp, names=nm[:j] + nm[j + 1:], data=[r[:j] + r[j + 1:] for r in d])
+            if len(s) > 40:
+                k = len(s) // 2
+                while k >= 1:
+                    yield dict(inp, samples=s[: len(s) - k], data=d[: len(s) - k])
+                    yield dict(inp, samples=s[k:], data=d[k:])
+                    k //= 2
+            else:
+                for i in range(len(s)):
+                    if len(s) > 1:
+                        yield dict(inp, samples=s[:i] + s[i + 1:], data=d[:i] + d[i + 1:])
+        if len(nm) > 40:
+            k = len(nm) // 2
+            while k >= 1:
+                yield dict(inp, names=nm[: len(nm) - k], data=[r[: len(nm) - k] for r in d])
+                yield dict(inp, names=nm[k:], data=[r[k:] for r in d])
+                k //= 2
+        else:
+            for j in range(len(nm)):
+                if len(nm) > 1:
+                    yield dict(inp, names=nm[:j] + nm[j + 1:], data=[r[:j] + r[j + 1:] for r in d])
         op = inp["op"]
         if op["k"] == "subset":
             for key in ("rs", "rn"):
@@ -976,6 +1300,56 @@ class OpSeq(Relation):
             ops.append({"k": "subset", "rs": self._req(rng, st["samples"], 0.5), "rn": self._req(rng, new, 0.0),
                         "inplace": bool(rng.random() < 0.5)})
             ops += [self._op(rng, st) for _ in range(int(rng.integers(0, 3)))]
+        elif klass == "long-table":
+            # > 1000 samples: look-up, discard rows at both ends and around row 1000, look up the rows behind them
+            n = int(rng.choice([1001, 1002, 1025]))
+            s = [f"s{i}" for i in range(n)]
+            nm = ["p0"] if rng.random() < 0.6 else ["p0", "p1"]
+            cols = []
+            for _ in nm:
+                cuts = sorted({0, n, *[int(x) for x in rng.integers(1, n, size=int(rng.integers(1, 4)))]})
+                col = []
+                for a, b in zip(cuts, cuts[1:]):
+                    col += [f2b(float(rng.choice(SEQ_CELLS)))] * (b - a)
+                cols.append(col)
+            d = [[c[i] for c in cols] for i in range(n)]
+            edge = sorted({0, 1, 999, 1000, n - 2, n - 1})
+            for i in rng.choice(edge, size=int(rng.integers(1, 4)), replace=False):
+                d[int(i)][int(rng.integers(0, len(nm)))] = M9
+                labs.append("m9-first" if i == 0 else "m9-last" if i == n - 1 else "m9-middle")
+            st = {"samples": [s[i] for i in edge] + ["zz"], "names": list(nm)}
+            ops = [{"k": "index", "s": True, "n": True} if rng.random() < 0.5 else
+                   {"k": "subset", "rs": [s[i] for i in reversed(edge)], "rn": None, "inplace": False},
+                   {"k": "missing", "discard": True},
+                   {"k": "subset", "rs": self._req(rng, st["samples"], 0.0), "rn": None, "inplace": bool(rng.random() < 0.3)}]
+            tail = str(rng.choice(["standardize", "append-short", "append-fit", "writeread", "none"]))
+            if tail == "standardize":
+                ops.insert(1, {"k": "standardize"})
+            elif tail == "append-short":
+                ops.insert(1, {"k": "append", "fit": True, "name": "nx", "col": self._col(rng)})       # 8 values: wrong length
+            elif tail == "append-fit":
+                ops.insert(1, {"k": "append", "fit": True, "name": "nx", "col": [f2b(2.0)] * 500 + [f2b(-1.0)] * (n - 500)})
+            elif tail == "writeread":
+                ops.insert(2, {"k": "writeread"})
+            labs = sorted(set(labs))
+        elif klass == "wide-table":
+            # > 1000 columns: every row of write() is printed past numpy's summarisation threshold
+            m = int(rng.choice([1001, 1002]))
+            n = int(rng.integers(1, 3))
+            s = [str(x) for x in rng.choice(SEQ_SAMPLES, size=n, replace=False)]
+            nm = [f"p{j}" for j in range(m)]
+            d = []
+            for _ in range(n):
+                cuts = sorted({0, m, *[int(x) for x in rng.integers(1, m, size=int(rng.integers(1, 4)))]})
+                row = []
+                for a, b in zip(cuts, cuts[1:]):
+                    row += [f2b(float(rng.choice(SEQ_CELLS)))] * (b - a)
+                d.append(row)
+            edge = [nm[j] for j in sorted({0, 1, 999, 1000, m - 1})]
+            ops = [{"k": "index", "s": False, "n": True}, {"k": "writeread"},
+                   {"k": "subset", "rs": None, "rn": [str(x) for x in rng.permutation(edge)] + ["zz"], "inplace": bool(rng.random() < 0.5)}]
+            if rng.random() < 0.5:
+                ops.insert(1, {"k": "append", "fit": True, "name": "p0" if rng.random() < 0.5 else "nx", "col": self._col(rng)})
         else:  # standardize-mix
             s, nm, d = self._table(rng, nmin=2, distinct_names=True)
             labs += self._put_m9(rng, d)
@@ -987,7 +1361,14 @@ class OpSeq(Relation):
                 "data": d, "ops": ops[:8], "klass": klass, "labs": labs}
 
     def generate(self, rng, n, tier):
-        return [self._one(rng, str(rng.choice(self.CLASSES))) for _ in range(n)]
+        # sequences on tables with > 1000 samples / columns cost ~13 CPU seconds each in Coq (the model's duplicate-id
+        # test is quadratic): thorough tier, and the quick tier when it is escalated (anchors changed: budget x 5)
+        big = []
+        if tier == "thorough" or n >= 1000:
+            k = 6 if tier == "thorough" else 1
+            big = [self._one(rng, "long-table") for _ in range(k)] + [self._one(rng, "wide-table") for _ in range(k)]
+        out = [self._one(rng, str(rng.choice(self.CLASSES))) for _ in range(max(n - len(big), 1))]
+        return out[:-1] + big + out[-1:]
 
     def exhaustive(self, tier):
         """every sequence of length <= 3 over a ten-operation alphabet on one 4 x 2 table whose second row holds -9"""
@@ -1091,11 +1472,19 @@ class OpSeq(Relation):
                 binds.append(f"let {cells[b]} := {L.z(b)} in")
             return cells[b]
 
+        def idlist(l):
+            # long id lists as generators (nrep / gnames), short ones by their bound identifiers
+            return CL.names_c(l) if len(l) >= CL.MIN_LEN else L.lst(l, ident)
+
+        def celllist(l):
+            return CL.zl_c(l) if len(l) >= CL.MIN_LEN else L.lst(l, cell)
+
         def tab(t):
             key = canon_json(t)
             if key not in tabs:
-                body = (f"mktab {L.lst(t['samples'], ident)} {L.lst(t['names'], ident)} "
-                        f"{L.lst(t['data'], lambda r: L.lst(r, cell))}")
+                big = len(t["samples"]) >= CL.MIN_LEN or len(t["names"]) >= CL.MIN_LEN
+                body = (f"mktab {idlist(t['samples'])} {idlist(t['names'])} "
+                        + (CL.rows_c(t["data"]) if big else L.lst(t["data"], lambda r: L.lst(r, cell))))
                 tabs[key] = f"t{len(tabs)}"
                 binds.append(f"let {tabs[key]} : ntab := {body} in")
             return tabs[key]
@@ -1114,10 +1503,9 @@ class OpSeq(Relation):
             if k == "index":
                 ops.append(f"SIndex {L.b(op['s'])} {L.b(op['n'])}")
             elif k == "subset":
-                ops.append(f"SSubset {L.opt(op['rs'], lambda l: L.lst(l, ident))} {L.opt(op['rn'], lambda l: L.lst(l, ident))} "
-                           f"{L.b(op['inplace'])}")
+                ops.append(f"SSubset {L.opt(op['rs'], idlist)} {L.opt(op['rn'], idlist)} {L.b(op['inplace'])}")
             elif k == "append":
-                ops.append(f"SAppend {L.b(op['fit'])} {ident(op['name'])} {L.lst(op['col'], cell)}")
+                ops.append(f"SAppend {L.b(op['fit'])} {ident(op['name'])} {celllist(op['col'])}")
             elif k == "missing":
                 ops.append(f"SMissing {L.b(op['discard'])}")
             elif k == "writeread":
@@ -1157,6 +1545,8 @@ class OpSeq(Relation):
 
     def classes(self, inp, obs):
         out = [inp.get("klass", "?"), inp["cls"], f"len={len(inp['ops'])}"] + list(inp.get("labs", []))
+        out.append("samples>1000" if len(inp["samples"]) > 1000 else "samples<=1000")
+        out.append("columns>1000" if len(inp["names"]) > 1000 else "columns<=1000")
         prior = set()
         for i, op, before, so in self._walk(inp, obs):
             k = op["k"]
@@ -1195,12 +1585,26 @@ class OpSeq(Relation):
             if len(ops) > 1:
                 yield dict(inp, ops=ops[:i] + ops[i + 1:])
         s, nm, d = inp["samples"], inp["names"], inp["data"]
-        for i in range(len(s)):
-            if len(s) > 1:
-                yield dict(inp, samples=s[:i] + s[i + 1:], data=d[:i] + d[i + 1:])
-        for j in range(len(nm)):
-            if len(nm) > 1:
-                yield dict(inp, names=nm[:j] + nm[j + 1:], data=[r[:j] + r[j + 1:] for r in d])
+        if len(s) > 40:
+            k = len(s) // 2
+            while k >= 1:
+                yield dict(inp, samples=s[: len(s) - k], data=d[: len(s) - k])
+                yield dict(inp, samples=s[k:], data=d[k:])
+                k //= 2
+        else:
+            for i in range(len(s)):
+                if len(s) > 1:
+                    yield dict(inp, samples=s[:i] + s[i + 1:], data=d[:i] + d[i + 1:])
+        if len(nm) > 40:
+            k = len(nm) // 2
+            while k >= 1:
+                yield dict(inp, names=nm[: len(nm) - k], data=[r[: len(nm) - k] for r in d])
+                yield dict(inp, names=nm[k:], data=[r[k:] for r in d])
+                k //= 2
+        else:
+            for j in range(len(nm)):
+                if len(nm) > 1:
+                    yield dict(inp, names=nm[:j] + nm[j + 1:], data=[r[:j] + r[j + 1:] for r in d])
         for i, op in enumerate(ops):
             if op["k"] == "subset":
                 for key in ("rs", "rn"):
@@ -1210,7 +1614,7 @@ class OpSeq(Relation):
                             yield dict(inp, ops=ops[:i] + [dict(op, **{key: op[key][:x] + op[key][x + 1:]})] + ops[i + 1:])
                 if op["inplace"]:
                     yield dict(inp, ops=ops[:i] + [dict(op, inplace=False)] + ops[i + 1:])
-        for i in range(len(s)):
+        for i in range(len(s) if len(s) * len(nm) <= 200 else 0):
             for j in range(len(nm)):
                 if d[i][j] not in (M9, f2b(1.0)):
                     dd = [list(r) for r in d]
@@ -1283,18 +1687,21 @@ RELATIONS = [RoundTrip(), Read(), Standardize(), Ops(), OpSeq()]
 
 LEVEL_TEXT = (
     "Coq theorems over all name lists, tables and files (no size bound) about a Gallina model of Phenotypes.write's name "
-    "suffixing, the reader's header detection and row skipping, append, subset (both axes, error branches) and "
-    "check_missing, and about arbitrary SEQUENCES of these operations on one object (by induction over the operation "
-    "list: each call acts on the current table only, tables stay rectangular, a discarded sample never resolves again); "
+    "suffixing (incl. the counter on any number of equal names), the reader's header detection and row skipping, append, "
+    "subset (both axes, error branches) and check_missing, and about arbitrary SEQUENCES of these operations on one object "
+    "(by induction over the operation list: each call acts on the current table only, tables stay rectangular, a discarded "
+    "sample never resolves again); standardize has an exact model (cells dev/sqrt(var) as pairs over Q) proved equal to the "
+    "real-number standardisation (mean 0, variance 1; zeros if constant) and the two standardize checkers are proved sound; "
     "the float64 text codec is a Section contract. The model and the property's boolean checkers are evaluated inside Coq "
-    "on every generated write/read, hand-made file, standardize call, table operation and operation sequence run against "
-    "the implementation."
+    "on every generated write/read (incl. tables beyond numpy's 1000-element print threshold and 75-character line width), "
+    "hand-made file, standardize call, table operation and operation sequence run against the implementation."
 )
 LEVEL_NOTE = (
     "partial: bit-exactness of numpy's shortest-unique printing + float64 parsing is a contract (parse (fmt x) = Some x), "
-    "validated bit-for-bit on every roundtrip case, not a theorem; standardize is proved over the reals (C09's theorem) and "
-    "compared cell by cell with the exact rational (deviation, variance) pair to 1e-9 on well-conditioned columns (agree) "
-    "while holds checks mean 0 / variance 1 of the output. Trusted: Coq kernel/vm_compute, the "
-    "hand-written model, csv.reader's field splitting."
+    "validated bit-for-bit on every roundtrip case, not a theorem; the floats standardize stores are compared cell by cell "
+    "with the exact (deviation, variance) pair to 1e-9 on well-conditioned columns (agree; C15_zcheck_real_meaning says what "
+    "that tolerance means against the real-number model) while holds checks mean 0 / variance 1 of the output to 1e-9 "
+    "(C15_standardize_holds_sound). Trusted: Coq kernel/vm_compute, the hand-written model, csv.reader's field splitting, "
+    "the Reals axioms under the six real-number theorems."
 )
 TECHNIQUE = "Coq proof (induction over name lists / file rows / tables) + vm_compute-evaluated correspondence against the implementation"
